@@ -58,6 +58,12 @@ def run(chk, searching=False):
     # the whole selected-state alphabet inside an assigned role mailbox, a foreign one, and after a failed SELECT
     programs.append(("tls", [("LOGIN", None), ("SELECT", "Roles/%s/INBOX" % P.R1)] + sel_cmds))
     programs.append(("tls", [("LOGIN", None), ("SELECT", "Roles/%s/INBOX" % P.R2)] + sel_cmds[:8]))
+    # role mailbox, then a SUCCESSFUL personal SELECT/EXAMINE: everything must act on the personal store again
+    programs.append(("tls", [("LOGIN", None), ("SELECT", "Roles/%s/INBOX" % P.R1), ("SELECT", "INBOX")] + sel_cmds))
+    programs.append(("tls", [("LOGIN", None), ("SELECT", "Roles/%s/Sent" % P.R1), ("EXAMINE", "Trash"), ("SELECT", "INBOX")] + sel_cmds[:10]))
+    programs.append(("tls", [("LOGIN", None), ("SELECT", "Roles/%s/INBOX" % P.R1), ("CLOSE", ""), ("SELECT", "INBOX")] + sel_cmds[:10]))
+    programs.append(("tls", [("LOGIN", None), ("SELECT", "Roles/%s/INBOX" % P.R1), ("XUNASSIGN", ""), ("SELECT", "Roles/%s/INBOX" % P.R1), ("SELECT", "INBOX")] + sel_cmds[:10]))
+    programs.append(("tls", [("LOGIN", None), ("SELECT", "INBOX"), ("SELECT", "Roles/%s/INBOX" % P.R1), ("UNSELECT", ""), ("SELECT", "Sent"), ("SELECT", "INBOX")] + sel_cmds[:8]))
     programs.append(("tls", [("LOGIN", None), ("SELECT", "Roles/%s/INBOX" % P.R1), ("SELECT", "Nope")] + sel_cmds[:8]))
     programs.append(("tls", [("LOGIN", None), ("SELECT", "INBOX"), ("SELECT", "Roles/%s/Nope" % P.R1)] + sel_cmds[:8]))
     programs.append(("tls", [("LOGIN", None), ("SELECT", "Roles/%s/INBOX" % P.R1), ("XUNASSIGN", ""), ("FETCH", "1 (FLAGS)"), ("SELECT", "Roles/%s/INBOX" % P.R1)] + sel_cmds[:6]))
